@@ -197,6 +197,68 @@ def run(F, R, tier):
     R.count("lazy-parse cache sites", n_cache)
     R.floor("lazy-parse cache sites", n_cache, 11)
 
+    # (e2) the lazily parsed layer sees the parent's bytes whole: `X::from_bytes(data, offset)` on a read path takes the
+    # parent's `rawdata` buffer itself (through clone / borrow / Rc::clone only) and the parent's recorded `offset` (0 for
+    # the frame).  A clipped or re-sliced copy becomes the cached layer's rawdata, and the packet is then serialised from
+    # that layer — bytes outside the clip are lost although nothing was assigned.
+    def whole_rawdata(e, depth=0):
+        """True if e denotes some object's `rawdata` buffer through transparent operations only"""
+        e = H.strip(e)
+        k = e.get("k")
+        if k == "field":
+            return e["name"] == "rawdata"
+        if k in ("ref", "un"):
+            return whole_rawdata(e["e"], depth)
+        if k == "mcall" and e["m"] in ("clone", "borrow", "as_ref", "deref", "to_owned") and not e.get("args"):
+            return whole_rawdata(e["recv"], depth)
+        if k == "call" and (e.get("callee") or "").endswith("::clone") and len(e.get("args", [])) == 1:
+            return whole_rawdata(e["args"][0], depth)
+        if k in ("call", "mcall") and depth < 3:
+            g2 = F.fn(e.get("callee") or "")
+            b2 = H.body_of(g2) if g2 else None
+            if b2 is not None:
+                leaves = H.return_leaves(b2) if hasattr(H, "return_leaves") else []
+                lets = {}
+                for s_ in H.walk(b2):
+                    if s_.get("k") == "let" and s_.get("pat", {}).get("k") == "bind" and s_.get("init") is not None:
+                        lets[s_["pat"]["id"]] = s_["init"]
+
+                def res(x, d=0):
+                    x = H.strip(x)
+                    if H.is_local(x) and H.local_id(x) in lets and d < 6:
+                        return res(lets[H.local_id(x)], d + 1)
+                    if x.get("k") in ("ref", "un"):
+                        return res(x["e"], d)
+                    if x.get("k") == "mcall" and x["m"] in ("clone", "borrow", "as_ref", "deref") and not x.get("args"):
+                        return res(x["recv"], d)
+                    if x.get("k") == "call" and (x.get("callee") or "").endswith("::clone") and len(x.get("args", [])) == 1:
+                        return res(x["args"][0], d)
+                    return whole_rawdata(x, depth + 1)
+                return bool(leaves) and all(res(l[0] if isinstance(l, tuple) else l) for l in leaves)
+        return False
+    n_lazy = 0
+    for p, g in sorted(F.fns.items()):
+        if not p.startswith("vm::pktprop::") and not p.startswith("vm::interpreter::"):
+            continue
+        b = H.body_of(g)
+        if b is None:
+            continue
+        k_ = 0
+        for c in H.walk(b):
+            cal = c.get("callee") or ""
+            if c.get("k") == "call" and cal.startswith("builtins::protocols::") and H.last(cal) == "from_bytes" and len(c.get("args", [])) == 2:
+                n_lazy += 1
+                layer = cal.split("::")[-2]
+                a0, a1 = c["args"]
+                ok0 = whole_rawdata(a0)
+                o = H.strip(a1)
+                ok1 = (o.get("k") == "lit" and o.get("v") == 0) or (o.get("k") == "field" and o["name"] == "offset")
+                R.ob("lazy-parse-input-whole", "%s#%d %s::from_bytes" % (H.last(p), k_, layer), ok0 and ok1,
+                     "data = %s (%s); offset = %s" % (H.render(a0)[:60], "the parent's rawdata" if ok0 else "NOT the parent's whole rawdata", H.render(a1)),
+                     F.loc(g, c.get("line")))
+                k_ += 1
+    R.floor("lazy layer parses", n_lazy, 12)
+
     # (f) getters are pure: only set_* methods (and constructors) write header / rawdata cells
     writers = {}
     for p, g in F.fns.items():
